@@ -60,6 +60,38 @@ theorem trace_frozen (c : Cfg) (ar aq : Nat) (s : S) (l : Label) (h : Inv c ar a
       simp only
       split
       · exact ⟨rfl, hcl⟩
+      · split
+        · exact ⟨rfl, hcl⟩
+        · exact ⟨rfl, hcl⟩
+  | upRespS k code d t =>
+    simp only [step, upRespS, upResp]
+    split
+    · cases hk : s.streams[k]? with
+      | none => exact ⟨rfl, hcl⟩
+      | some st =>
+        simp only
+        split
+        · exact ⟨rfl, hcl⟩
+        · split
+          · exact ⟨rfl, hcl⟩
+          · exact ⟨rfl, hcl⟩
+    · cases hk : s.streams[k]? with
+      | none => exact ⟨rfl, hcl⟩
+      | some st =>
+        simp only
+        split
+        · exact ⟨rfl, hcl⟩
+        · split
+          · exact ⟨rfl, hcl⟩
+          · exact ⟨rfl, hcl⟩
+  | upEnd k =>
+    simp only [step, upEndL]
+    cases hk : s.streams[k]? with
+    | none => exact ⟨rfl, hcl⟩
+    | some st =>
+      simp only
+      split
+      · exact ⟨rfl, hcl⟩
       · exact ⟨rfl, hcl⟩
   | upReset k r =>
     simp only [step, upResetL]
@@ -70,8 +102,10 @@ theorem trace_frozen (c : Cfg) (ar aq : Nat) (s : S) (l : Label) (h : Inv c ar a
       split
       · exact ⟨rfl, hcl⟩
       · split
-        · simp [upOnResetStream, hcl]
         · exact ⟨rfl, hcl⟩
+        · split
+          · simp [upOnResetStream, hcl]
+          · exact ⟨rfl, hcl⟩
   | poolFail f => exact ⟨rfl, hcl⟩
   | hostsGone => exact ⟨rfl, hcl⟩
   | perTryFire => simp [step, perTryFire, hpt, hcl]
@@ -135,7 +169,7 @@ theorem timeout_step1 (c : Cfg) (g : S) (hrun : g.running = true) (hp : g.phase 
     (how : c.oneway = false) (hdr : g.downReset = false) (hrst : g.respStarted = false) (hps : g.pass = 0) :
     work c g = hijackState c { g with notify := false } .UpstreamGlobalTimeout := by
   unfold work
-  rw [if_neg (by simp [hrun])]
+  rw [if_neg (by simp [hrun]), if_neg (by simp [bodyWait, hp])]
   split
   all_goals first
     | (rename_i hh; rw [hp] at hh; exact absurd hh (by decide))
@@ -147,10 +181,10 @@ theorem timeout_step1 (c : Cfg) (g : S) (hrun : g.running = true) (hp : g.phase 
       sendHijack { orFlag (cleanUp c { g with notify := false }) (reasonToFlag .UpstreamGlobalTimeout) with upReset := false }
         (reasonToCode .UpstreamGlobalTimeout) false := by
     unfold onUpstreamReset
-    simp only [hrr]
+    simp only [retryGate_eq, hrr]
     rw [if_neg (by simp)]
     unfold onUpstreamResetFinish
-    simp only [cleanUp_respStarted, hrst, Bool.false_eq_true, if_false]
+    simp only [resetNotReply_eq, cleanUp_respStarted, hrst, Bool.false_eq_true, if_false]
   rw [e1]
   unfold peTail
   rw [if_neg (by simp [sendHijack, orFlag, hdr]), if_pos (by simp [sendHijack])]
@@ -167,7 +201,7 @@ theorem timeout_step2 (c : Cfg) (h1 : S) (hrun : h1.running = true) (hp : h1.pha
     (hsr : h1.setupRetry = false) (hpd : h1.procDone = false) (hup : h1.up.isSome = true) :
     work c h1 = { h1 with phase := .UpRecvHeader } := by
   unfold work
-  rw [if_neg (by simp [hrun])]
+  rw [if_neg (by simp [hrun]), if_neg (by simp [bodyWait, hp])]
   split
   all_goals first
     | (rename_i hh; rw [hp] at hh; exact absurd hh (by decide))
@@ -194,7 +228,7 @@ theorem timeout_step3 (c : Cfg) (h2 : S) (code : Nat) (hrun : h2.running = true)
     (work c h2).cleaned = true ∧ (work c h2).running = false ∧
     (work c h2).trace = (h2.trace ++ [Ev.dh code true]) ++ [Ev.log h2.respCode h2.flags] := by
   unfold work
-  rw [if_neg (by simp [hrun])]
+  rw [if_neg (by simp [hrun]), if_neg (by simp [bodyWait, hp])]
   split
   all_goals first
     | (rename_i hh; rw [hp] at hh; exact absurd hh (by decide))
@@ -280,7 +314,7 @@ theorem terminate_step1 (c : Cfg) (g : S) (hrun : g.running = true) (hp : g.phas
     work c g = { g with direct := false, rs := none, retries := (rsReset c g).retries, pass := 1, phase := .UpFilter,
                         notify := false } := by
   unfold work
-  rw [if_neg (by simp [hrun])]
+  rw [if_neg (by simp [hrun]), if_neg (by simp [bodyWait, hp])]
   split
   all_goals first
     | (rename_i hh; rw [hp] at hh; exact absurd hh (by decide))
